@@ -405,7 +405,7 @@ def row_text(text):
 
 def explore_rolling(ctx, thorough):
     E_ = Engine(ctx)
-    bad = {"once": [], "order": [], "chain": []}
+    bad = {"once": [], "order": [], "chain": [], "balanced": []}
     n = 0
     texts = [[t] for t in ROW_TEXTS]
     texts[1] = ["HI HI", ("spc", "♪"), " YES"]
@@ -469,23 +469,28 @@ def explore_rolling(ctx, thorough):
             bad["chain"].append(dict(case, times=starts))
     # simulate_roll_up: (a) every caption the reader returns has balanced italic nodes, also when rows with italics are
     # stacked; (b) the option belongs to the call: a reader used once with it reads the next document like a fresh one
-    ital_rows = [["plain row"], [("mid", True), "slanted row"], ["third row"], [("mid", True), "again"], ["last"]]
+    ital_rows = [["plain"], [("mid", True), "slanted"], ["two ", ("mid", True), "it", ("mid", False), " end"],
+                 ["third"], [("mid", True), "again"], ["last"]]
     for depth in (2, 3, 4):
+      for ru_every_row, d_ in ((True, 1), (False, 1), (False, 2)):
         lines_ = ["Scenarist_SCC V1.0", ""]
         for k, row in enumerate(ital_rows):
-            words = [RU[depth]] + [C.CONTROL["CR"]] + [pac(15, 0)]
+            words = ([RU[depth]] * d_ if (ru_every_row or k == 0) else []) + [C.CONTROL["CR"]] * d_ + [pac(15, 0)] * d_
             for tok in row:
-                words += text_words(tok) if isinstance(tok, str) else [MID_ITALICS]
+                words += text_words(tok) if isinstance(tok, str) else [MID_ITALICS if tok[1] else MID_PLAIN] * d_
             lines_ += [f"{tc(1 + 2 * k, 0, False)}\t" + " ".join(words), ""]
-        lines_ += [f"{tc(1 + 2 * len(ital_rows), 0, False)}\t" + C.CONTROL["EDM"], ""]
+        lines_ += [f"{tc(1 + 2 * len(ital_rows), 0, False)}\t" + " ".join([C.CONTROL["EDM"]] * d_), ""]
         doc = "\n".join(lines_)
         for sim in (False, True):
             n += 1
             got = E_.read(doc, simulate_roll_up=sim)
+            if isinstance(got, tuple) and sim and got[1] == "CaptionLineLengthError":
+                continue        # the simulation joins the rows of the window on one line: a line-length error is a legitimate outcome
             if isinstance(got, tuple):
                 bad["once"].append({"mode": f"roll-up {depth}, rows with mid-row italics, simulate_roll_up={sim}", "raises": f"{got[1]}: {got[3]}"[:120]})
             elif any(g["unbalanced"] for g in got):
-                bad["once"].append({"mode": f"roll-up {depth}, rows with mid-row italics, simulate_roll_up={sim}",
+                bad["balanced"].append({"mode": f"roll-up {depth}, rows with mid-row italics, simulate_roll_up={sim}, "
+                                            f"RU {'on every row' if ru_every_row else 'once'}, {'doubled' if d_ == 2 else 'single'} codes",
                                     "why": "a returned caption has unbalanced italic style nodes",
                                     "captions": [g["lines"] for g in got if g["unbalanced"]][:3]})
         # (b)
@@ -667,7 +672,8 @@ def explore_times(ctx, thorough):
             elif any(abs(a[1] - b[1]) > 0.01 for a, b in zip(gs, want)):
                 bad["final" if "long after" in label else "end"].append(dict(case, times=gs, required=[tuple(w) for w in want]))
     # offset: subtracted, floored at zero
-    for off in (1, -3, 0.5):        # (an offset beyond the first caption floors whole captions to zero: outside the compared domain)
+    # (1.2 s lies between the first line's time code and the instant its EOC is transmitted)
+    for off in (1, -3, 0.5, 1.2):        # (an offset beyond the first caption floors whole captions to zero: outside the compared domain)
         prog = [one("A"), one("B")]
         doc = stream(prog, 1)
         n += 1
